@@ -125,9 +125,10 @@ impl ZipIntVec {
     #[inline]
     pub fn set(&mut self, idx: usize, val: usize) {
         assert!(val >= self.min_val, "Value {} below minimum {}", val, self.min_val);
-        let max_val = self.min_val + self.inner.uintmask();
-        assert!(val <= max_val, "Value {} exceeds maximum {}", val, max_val);
-        self.inner.set(idx, val - self.min_val);
+        // compare offsets: min_val + uintmask can exceed usize::MAX for values near the top
+        let offset = val - self.min_val;
+        assert!(offset <= self.inner.uintmask(), "Value {} exceeds maximum {}", val, self.max_val());
+        self.inner.set(idx, offset);
     }
 
     /// Build from usize slice (auto-detect min/max)
@@ -267,7 +268,7 @@ impl ZipIntVec {
     /// Get maximum value that can be stored
     #[inline]
     pub fn max_val(&self) -> usize {
-        self.min_val + self.inner.uintmask()
+        self.min_val.saturating_add(self.inner.uintmask())
     }
 
     /// Get underlying byte data
